@@ -306,9 +306,37 @@ pub fn check_get_doc(ctx: &mut Ctx, doc: &[u8], all_eps: bool) {
     ctx.nontrivial();
     let mut paths = refjson::all_paths(&root);
     paths.extend(perturbed_paths(&root));
+    check_get_on_paths(ctx, doc, &root, &paths, all_eps);
+}
+
+/// C10 on a long corpus document: every path of depth <= 2, every k-th deeper path and every k-th
+/// perturbed (unresolvable) path
+pub fn check_get_corpus(ctx: &mut Ctx, doc: &[u8], budget: usize) {
+    let Ok(root) = refjson::parse_doc(doc, RMode::Decode) else {
+        ctx.outcome("skipped:not-wellformed");
+        return;
+    };
+    if root.has_duplicate_keys() {
+        ctx.outcome("skipped:duplicate-keys");
+        return;
+    }
+    ctx.nontrivial();
+    let all = refjson::all_paths(&root);
+    let mut sel: Vec<Vec<Seg>> = all.iter().filter(|p| p.len() <= 2).take(budget).cloned().collect();
+    let deep: Vec<&Vec<Seg>> = all.iter().filter(|p| p.len() > 2).collect();
+    let stride = (deep.len() / budget.max(1)).max(1);
+    sel.extend(deep.iter().step_by(stride).map(|p| (*p).clone()));
+    let pert = perturbed_paths(&root);
+    let stride = (pert.len() / budget.max(1)).max(1);
+    sel.extend(pert.into_iter().step_by(stride));
+    ctx.sample(|| json!({"doc_len": doc.len(), "paths_selected": sel.len(), "paths_total": all.len()}));
+    check_get_on_paths(ctx, doc, &root, &sel, false);
+}
+
+pub fn check_get_on_paths(ctx: &mut Ctx, doc: &[u8], root: &Node, paths: &[Vec<Seg>], all_eps: bool) {
     let dom: Option<Value> = guard(|| sonic_rs::from_slice::<Value>(doc).ok()).ok().flatten();
     let lazy_root: Option<LazyValue> = guard(|| sonic_rs::from_slice::<LazyValue>(doc).ok()).ok().flatten();
-    for path in &paths {
+    for path in paths {
         let ptr = to_pointer(path);
         let exp = refjson::walk(&root, path);
         let neps = if all_eps { GET_EPS.len() } else { 10 };
@@ -601,6 +629,12 @@ pub fn families_c10(tier: Tier) -> Vec<Family> {
         v.push(Family::of_vec(&format!("deep-docs<={}nodes", n), g.docs(n), move |d, ctx| check_get_doc(ctx, d.as_bytes(), false)));
     }
     v.push(Family::of_vec("block-edge-sweep", block_edge_docs(if q { 70 } else { 135 }), |d, ctx| check_get_doc(ctx, d, false)));
+    // corpus documents: a strided selection of their paths
+    {
+        let docs: Vec<(String, Vec<u8>)> = gen::corpus().into_iter().filter(|(_, d)| d.len() < if q { 700_000 } else { 3 << 20 }).collect();
+        let budget = if q { 100 } else { 1500 };
+        v.push(Family::of_vec("corpus-files/strided-paths", docs, move |(_, d), ctx| check_get_corpus(ctx, d, budget)));
+    }
     // framed variants: trailing/leading whitespace around the whole document
     {
         let base = block_edge_docs(if q { 40 } else { 70 });
@@ -1304,6 +1338,31 @@ pub fn families_c12(tier: Tier) -> Vec<Family> {
         }
         v.push(Family::of_vec("length-sweep", docs, |d, ctx| check_iter(ctx, d, false)));
     }
+    // corpus documents: whole, each container member of the root, and cut at evenly spaced points
+    {
+        let mut inputs: Vec<Vec<u8>> = vec![];
+        for (_, d) in gen::corpus() {
+            if d.len() > (if q { 700_000 } else { 3 << 20 }) {
+                continue;
+            }
+            inputs.push(d.clone());
+            if let Ok(root) = refjson::parse_doc(&d, RMode::Decode) {
+                let kids: Vec<&Node> = match &root.kind {
+                    Kind::Arr(a) => a.iter().collect(),
+                    Kind::Obj(o) => o.iter().map(|(_, v)| v).collect(),
+                    _ => vec![],
+                };
+                for k in kids.into_iter().filter(|k| matches!(k.kind, Kind::Arr(_) | Kind::Obj(_))).take(if q { 6 } else { 40 }) {
+                    inputs.push(k.text(&d).to_vec());
+                }
+            }
+            let cuts = if q { 12 } else { 100 };
+            for c in 1..cuts {
+                inputs.push(d[..d.len() * c / cuts].to_vec());
+            }
+        }
+        v.push(Family::of_vec("corpus-files", inputs, |d, ctx| check_iter(ctx, d, false)));
+    }
     // B11 string bodies as element and as key
     {
         let k = gen::B11.len() as u64;
@@ -1601,6 +1660,31 @@ pub fn families_c14(tier: Tier) -> Vec<Family> {
             d.extend_from_slice(b);
             check_validating(ctx, &d, std::slice::from_ref(path), false);
         }));
+    }
+    // (ii-b) corpus documents cut at evenly spaced points and with one byte replaced there (long
+    // inputs: every traversal crosses many SIMD blocks)
+    {
+        let mut inputs: Vec<(Vec<u8>, Vec<Vec<Seg>>)> = vec![];
+        for (_, d) in gen::corpus() {
+            if d.len() > 700_000 {
+                continue;
+            }
+            let Ok(root) = refjson::parse_doc(&d, RMode::Decode) else { continue };
+            let all = refjson::all_paths(&root);
+            let stride = (all.len() / 12).max(1);
+            let sp: Vec<Vec<Seg>> = all.into_iter().filter(|p| !p.is_empty()).step_by(stride).collect();
+            let n = if q { 10 } else { 60 };
+            for c in 1..n {
+                let cut = d.len() * c / n;
+                inputs.push((d[..cut].to_vec(), sp.clone()));
+                for b in [b'"', b'\\', b'}', b',', 0xffu8, b'0'] {
+                    let mut m = d.clone();
+                    m[cut] = b;
+                    inputs.push((m, sp.clone()));
+                }
+            }
+        }
+        v.push(Family::of_vec("corpus-files/cuts+substitutions", inputs, |(d, sp), ctx| check_validating(ctx, d, sp, true)));
     }
     // (iii) seed neighbourhoods: every prefix and every single-byte substitution
     for (si, seed) in seed_docs().into_iter().enumerate() {
